@@ -844,8 +844,14 @@ class ConsumerGroup(Coordinator):
         starts up consumers for the newly assigned partitions
         """
         log.debug("%s on_join_complete: %s", self, assignments)
+        member_id = self.member_id
         for topic, partitions in assignments.items():
             for partition in partitions:
+                if self.member_id != member_id:
+                    # A consumer started above failed at once with an error
+                    # that cost us our membership (on_group_leave() has run):
+                    # start no more consumers for that generation.
+                    return
                 consumer = Consumer(
                     client=self.client,
                     topic=topic,
